@@ -116,6 +116,7 @@ func (c *Conn) Close(code StatusCode, reason string) (err error) {
 	}()
 
 	err = c.closeHandshake(code, reason)
+	simYield("close.handshaken", c)
 
 	err2 := c.close()
 	if err == nil && err2 != nil {
